@@ -14,7 +14,6 @@ inductive Treatment where
   | snapshot        -- cannot fire: the looked-up key was read from the same store earlier in the same end-blocker
   | ownCodec        -- (un)marshal of a value this module marshalled itself with the same codec (trusted)
   | ownAddress      -- bech32 of an address string this module produced itself with `AccAddress.String()` (trusted)
-  | finiteFloat     -- `%.8f` of a finite float64 always parses as a decimal (trusted; `PowerDiff` divides by a constant)
   | constDivisor    -- division by the non-zero constant `sdk.DefaultPowerReduction`
   deriving DecidableEq, Repr
 
@@ -23,7 +22,7 @@ def accounted : List (Site × Treatment) := [
   (⟨"keeper.Keeper.GetCurrentOracleSet", "arith", "Uint64"⟩, .modelled),
   (⟨"keeper.Keeper.GetCurrentOracleSet", "arith", "QuoUint64"⟩, .modelled),
   (⟨"keeper.Keeper.SlashOracle", "panic", "panic(types.ErrNoFoundOracle)"⟩, .snapshot),
-  (⟨"keeper.Keeper.isNeedOracleSetRequest", "panic", "panic(fmt.Errorf(\"covert power diff to dec err, powerDiff: %"⟩, .finiteFloat),
+  (⟨"keeper.Keeper.isNeedOracleSetRequest", "panic", "panic(fmt.Errorf(\"covert power diff to dec err, powerDiff: %"⟩, .modelled),
   (⟨"types.Oracle.GetOracle", "must", "sdk.MustAccAddressFromBech32"⟩, .ownAddress),
   (⟨"types.Oracle.GetPower", "arith", "Quo"⟩, .constDivisor),
   (⟨"keeper.Keeper.GetAllOracles", "must", "k.cdc.MustUnmarshal"⟩, .ownCodec),
@@ -44,5 +43,57 @@ def accounted : List (Site × Treatment) := [
 ]
 
 def isAccounted (s : Site) : Bool := accounted.any (fun a => a.1 == s)
+
+/-! ## gov half: every error-return / panic site of `gov.EndBlocker`, `failUnsupportedProposal` and `Keeper.Tally`
+
+`Gen.C07.govSites` is regenerated (each `if err != nil { return … err }` with the call that produced `err`, each `return …, f(…)`,
+each `panic` / `Must*`).  An error returned by the gov end-blocker aborts `FinalizeBlock`, so every site must be accounted. -/
+
+inductive GovTreatment where
+  | tally            -- `Keeper.Tally` itself: its arithmetic is modelled in `Model/C07Gov` and proved total (`gov_tally_total`)
+  | deposits         -- refund / burn of a proposal's deposits: total by the C15 deposit invariant (`gov_endblock_*` in Props/C15)
+  | ownQueue         -- walk / remove / set of queue and vote entries the module wrote itself (collections, key codec only)
+  | ownRecord        -- get / set / delete of a proposal or the params the module stored itself; a proposal that no longer
+                     -- decodes is failed by `failUnsupportedProposal` instead of returning the error
+  | addressCodec     -- bech32 text ↔ bytes of an address the SDK stored itself
+  | stakingIter      -- staking keeper iterators: they return an error only from their own store decoding
+  deriving DecidableEq, Repr
+
+def govAccounted : List (Site × GovTreatment) := [
+  (⟨"gov.EndBlocker", "err", "keeper.InactiveProposalsQueue.Walk"⟩, .ownQueue),
+  (⟨"gov.EndBlocker", "err", "keeper.ActiveProposalsQueue.Walk"⟩, .ownQueue),
+  (⟨"gov.EndBlocker", "err", "keeper.Proposals.Get"⟩, .ownRecord),
+  (⟨"gov.EndBlocker", "err", "keeper.DeleteProposal"⟩, .ownRecord),
+  (⟨"gov.EndBlocker", "err", "keeper.Params.Get"⟩, .ownRecord),
+  (⟨"gov.EndBlocker", "err", "keeper.RefundAndDeleteDeposits|keeper.DeleteAndBurnDeposits"⟩, .deposits),
+  (⟨"gov.EndBlocker", "err", "keeper.DeleteAndBurnDeposits|keeper.RefundAndDeleteDeposits"⟩, .deposits),
+  (⟨"gov.EndBlocker", "err", "failUnsupportedProposal"⟩, .ownRecord),
+  (⟨"gov.EndBlocker", "err", "keeper.Tally"⟩, .tally),
+  (⟨"gov.EndBlocker", "err", "keeper.ActiveProposalsQueue.Remove"⟩, .ownQueue),
+  (⟨"gov.EndBlocker", "err", "keeper.ActiveProposalsQueue.Set"⟩, .ownQueue),
+  (⟨"gov.EndBlocker", "err", "keeper.SetProposal"⟩, .ownRecord),
+  (⟨"gov.failUnsupportedProposal", "err", "keeper.SetProposal"⟩, .ownRecord),
+  (⟨"gov.failUnsupportedProposal", "err", "keeper.RefundAndDeleteDeposits"⟩, .deposits),
+  (⟨"keeper.Keeper.Tally", "err", "keeper.sk.IterateBondedValidatorsByPower"⟩, .stakingIter),
+  (⟨"keeper.Keeper.Tally", "err", "keeper.sk.IterateDelegations"⟩, .stakingIter),
+  (⟨"keeper.Keeper.Tally", "err", "keeper.sk.TotalBondedTokens"⟩, .stakingIter),
+  (⟨"keeper.Keeper.Tally", "err", "keeper.Votes.Walk"⟩, .ownQueue),
+  (⟨"keeper.Keeper.Tally", "err", "keeper.Votes.Remove"⟩, .ownQueue),
+  (⟨"keeper.Keeper.Tally", "err", "keeper.Params.Get"⟩, .ownRecord),
+  (⟨"keeper.Keeper.Tally", "err", "keeper.sk.ValidatorAddressCodec().StringToBytes"⟩, .addressCodec),
+  (⟨"keeper.Keeper.Tally", "err", "keeper.authKeeper.AddressCodec().StringToBytes"⟩, .addressCodec),
+  (⟨"keeper.Keeper.Tally", "err", "keeper.sk.ValidatorAddressCodec().BytesToString"⟩, .addressCodec)
+]
+
+def isGovAccounted (s : Site) : Bool := govAccounted.any (fun a => a.1 == s)
+
+/-- the divisions of `Keeper.Tally` the model has (same order as the source) -/
+def modelledQuoDivisors : List String := [
+  "Quo val.DelegatorShares",                                  -- delegationStep
+  "Quo val.DelegatorShares",                                  -- validatorStep
+  "Quo math.LegacyNewDecFromInt(totalBonded)",                -- tail: turnout
+  "Quo totalVotingPower",                                     -- tail: veto share
+  "Quo totalVotingPower.Sub(results[v1.OptionAbstain])"       -- tail: yes share of the non-abstaining power
+]
 
 end FxVerif.Model.C07
